@@ -18,7 +18,7 @@ PROFILES = {
                          'attach': 2, 'remove_node': 0.5, 'add_node': 0.5, 'link': 0.5, 'copy': 0.3},
                 n_nodes=(3, 8), n_atts=(1, 3), n_steps=(3, 14), bad_ids=0.0),
     'C12': dict(weights={**{k: 0 for k in W_BASE}, 'q_surface': 3, 'q_trav': 4, 'q_update': 4, 'q_defsurface': 1,
-                         'q_enabled': 1, 'compromise': 3, 'undo': 1, 'set_flags': 3, 'set_tags': 1, 'calc': 0.5},
+                         'q_enabled': 1, 'compromise': 3, 'undo': 1, 'set_flags': 3, 'set_tags': 1, 'calc': 0.5, 'copy': 0.8},
                 n_nodes=(3, 8), n_links=(2, 12), n_atts=(1, 3), n_steps=(3, 12)),
     'C13': dict(weights={**{k: 0 for k in W_BASE}, 'prune': 4, 'set_flags': 4, 'calc': 2, 'compromise': 1,
                          'link': 1, 'q_surface': 0.5, 'copy': 0.7},
@@ -575,8 +575,23 @@ def check(pid: str, tier: str, seed: int):
         impl = C.import_impl()
         hist = make_cases(pid, impl, tier, seed)
         cases, metas, opcount, streams = [], [], {}, {}
-        for stream, ops in hist:
-            m = run_with_predicates(pid, impl, ops)
+        import logging
+        mt_logger = logging.getLogger('maltoolbox')
+        for hi, (stream, ops) in enumerate(hist):
+            # C13: every fourth history runs with the library's logger at DEBUG (what the library logs must not matter)
+            debug = pid == 'C13' and hi % 4 == 3
+            old_level = mt_logger.level
+            old_disable = logging.root.manager.disable
+            if debug:
+                logging.disable(logging.NOTSET)
+                mt_logger.setLevel(logging.DEBUG)
+                stream = stream + '+debug-log'
+            try:
+                m = run_with_predicates(pid, impl, ops)
+            finally:
+                if debug:
+                    mt_logger.setLevel(old_level)
+                    logging.disable(old_disable)
             m['stream'] = stream
             cases.append(GW.c_case(ops, m['outs'], m['obs']))
             metas.append(m)
